@@ -289,6 +289,7 @@ class Typestate:
     """Base class for rules run by `simulate`.  States must be hashable."""
     init = None
     track_facts = True
+    enter = None     # optional hook: enter(F, block id, state, ctx) when a block is reached
 
     def event(self, F, nid, st, ctx):
         """Return the next state (or an iterable of states via a set)."""
@@ -306,11 +307,11 @@ def _pure_for_fact(F, i):
     return not F.has_call(i)
 
 
-def simulate(F, ts, init=None, max_states=200000, entry_facts=None, entry_consts=None):
+def simulate(F, ts, init=None, max_states=200000, entry_facts=None, entry_consts=None, start=None):
     """Run typestate `ts` over all feasible paths of F (loops handled by state
     merging: a (block, state) pair is explored once)."""
     init = ts.init if init is None else init
-    start = (F.entry, init, frozenset((entry_consts or {}).items()), frozenset((entry_facts or {}).items()))
+    start = (F.entry if start is None else start, init, frozenset((entry_consts or {}).items()), frozenset((entry_facts or {}).items()))
     seen = {start}
     work = deque([start])
     steps = 0
@@ -324,6 +325,8 @@ def simulate(F, ts, init=None, max_states=200000, entry_facts=None, entry_consts
         B = F.blocks[bid]
         ctx = Ctx(F, consts, facts, bid)
         states = {st}
+        if ts.enter is not None:
+            ts.enter(F, bid, st, ctx)
         for nid in B.elems:
             nd = F.nodes[nid]
             k = nd.get("k")
